@@ -91,6 +91,13 @@ class World:
             15: w1 + 0.0,
             16: v0 + 2.0 * v1 + w0 + 3.0 * w1,   # linear objective over both families
             17: 5.0 - v0,                     # 5 - v0 >= 0 is v0 <= 5, looser than ub = 4
+            # objectives / constraints over shifted variable sets of equal size (v1 v2 | v1 v2 w0 | v0 v1 v2 ...)
+            33: 2.0 * v1 + v2,                # linear over v1 v2
+            34: v1 ** 2 + (v2 - 1.0) ** 2,    # quadratic over v1 v2
+            35: v1 + v2 + 0.5 * w0,           # linear over v1 v2 w[0]
+            36: v1 ** 2 + v2 * w0 + w0 ** 2,  # non-linear over v1 v2 w[0]
+            37: v0 + 3.0 * v1 + v2,           # linear over v0 v1 v2
+            38: v1 + 2.0 * v2 - 1.0,          # constraint row over v1 v2
             30: v0 + 2.0 * z9,                # linear with an integer variable
             31: (z9 - 1.5) ** 2 + v0 ** 2,    # quadratic with an integer variable
         }
@@ -778,6 +785,33 @@ def bound_relation_histories(rng, thorough):
     return hs
 
 
+def relayout_histories(W, thorough):
+    """the objective is replaced by one over a DIFFERENT variable set of the SAME size, so that the sorted column layout
+    shifts while len(variables) stays equal: every pair of objectives × constraint sets for which that happens (computed
+    from the measured variable sets), solves on the LP and the NLP path before and after, both replacement directions"""
+    objs = [1, 7, 5, 33, 35, 37, 16, 30, 2, 34, 36, 3, 6, 31]
+    conss = [[(12, "<=")], [(38, ">=")], [(5, "<=")], [(8, ">="), (12, "<=")], [(2, ">=")], [(14, ">=")], [(38, "=="), (9, ">=")], []]
+    pairs = [("auto", "auto"), ("SLSQP", "SLSQP"), ("auto", "SLSQP"), ("trust-constr", "highs-ds")]
+    hs = []
+    for cons in conss:
+        cv = set()
+        for t, _ in cons:
+            cv |= set(W.ctx[t][1])
+        for a in objs:
+            for b in objs:
+                va, vb = sorted(cv | set(W.ctx[a][1])), sorted(cv | set(W.ctx[b][1]))
+                if a == b or len(va) != len(vb) or va == vb:
+                    continue
+                head = [("stl", tuple(cons))] if cons else []
+                for k, (m1, m2) in enumerate(pairs if thorough else pairs[(a + b) % 2::2]):
+                    o1, o2 = (("min", "min"), ("min", "max"), ("max", "min"))[(a + b + k) % 3]
+                    hs.append([(o1, a)] + head + [("solve", m1, 0), (o2, b), ("solve", m2, 0), ("solve", m1, 0)])
+                    if thorough or (a + b) % 3 == 0:
+                        hs.append([(o1, a)] + head + [("solve", m1, 0), (o2, b), ("bounds",), ("solve", m2, 0), (o1, a),
+                                                      ("solve", m1, 0)])
+    return hs
+
+
 def kwargs_fault_histories(thorough):
     """histories the Lean machine does not model (checked against the fresh-problem oracle only): strict / non-strict
     alternation with an integer variable in the model, a back end that fails in an earlier solve (ordinary exception,
@@ -830,8 +864,10 @@ def array_alias_histories(thorough):
     return hs
 
 
-def histories(rng, thorough):
+def histories(rng, thorough, W=None):
     hs = resubmit_histories() + bound_relation_histories(rng, thorough) + array_alias_histories(thorough)
+    if W is not None:
+        hs += relayout_histories(W, thorough)
     for n in (1, 2):
         hs += [list(p) for p in itertools.product(FULL, repeat=n)]
     # length 3 over the full alphabet with an objective first (the other prefixes raise NoObjective / do nothing)
@@ -842,8 +878,8 @@ def histories(rng, thorough):
         hs += [list(p) for p in itertools.product(CORE, repeat=n)]
     if not thorough:
         # seeded samples of the length-4 and length-5 core cubes
-        hs += [list(p) for p in rng.sample(list(itertools.product(CORE, repeat=4)), 5000)]
-        hs += [list(p) for p in rng.sample(list(itertools.product(CORE, repeat=5)), 1500)]
+        hs += [list(p) for p in rng.sample(list(itertools.product(CORE, repeat=4)), 3500)]
+        hs += [list(p) for p in rng.sample(list(itertools.product(CORE, repeat=5)), 1000)]
     n_rand = 6000 if thorough else 1200
     for _ in range(n_rand):
         hs.append(rand_history(rng, rng.randint(6, 24 if thorough else 14)))
@@ -853,9 +889,9 @@ def histories(rng, thorough):
 def rand_op(rng):
     r = rng.random()
     if r < 0.16:
-        return (rng.choice(["min", "max"]), rng.choice([1, 2, 3, 4, 5, 6, 7, 16, 16, 8, 18, 19, 20, 24, 27, 28, 29, 30, 31, 32]))
+        return (rng.choice(["min", "max"]), rng.choice([1, 2, 3, 4, 5, 6, 7, 16, 16, 8, 18, 19, 20, 24, 27, 28, 29, 30, 31, 32, 33, 34, 35, 36, 37]))
     if r < 0.30:
-        return ("st", rng.choice([1, 2, 3, 5, 6, 7, 8, 9, 10, 11, 12, 13, 14, 15, 16, 17, 22, 23, 26, 18, 30, 31]),
+        return ("st", rng.choice([1, 2, 3, 5, 6, 7, 8, 9, 10, 11, 12, 13, 14, 15, 16, 17, 22, 23, 26, 18, 30, 31, 38, 33]),
                 rng.choice(["<=", ">=", "=="]))
     if r < 0.33:
         return ("stv", rng.choice([">=", "<="]))
@@ -925,7 +961,7 @@ def run(ctx) -> core.Report:
                            "edit (objective / sense / constraint / bound) made after some cache was populated")
     W = World()
     stubs = Stubs()
-    hs = histories(rng, thorough)
+    hs = histories(rng, thorough, W)
     lean_lines, expected, metas = [], [], []
     ctx_text, b_text = W.ctx_text(), W.bounds_text()
     clear_lru()
